@@ -234,7 +234,7 @@ class Ctx:
             except Exception:
                 pass
         threading.Thread(target=feed, daemon=True).start()
-        buf = b""
+        chunks = []          # joined once at the end: `buf += chunk` copies the whole buffer on every read (quadratic)
         hung = False
         fd = p.stdout.fileno()
         last = time.time()
@@ -246,13 +246,13 @@ class Ctx:
                     break
                 if b"\n" in chunk:
                     last = time.time()
-                buf += chunk
+                chunks.append(chunk)
             elif time.time() - last > case_to:
                 hung = True
                 p.kill()
                 break
         p.wait()
-        lines = buf.decode(errors="replace").split("\n")
+        lines = b"".join(chunks).decode(errors="replace").split("\n")
         complete = lines[:-1] if lines else []
         return complete, (not hung and p.returncode == 0 and len(complete) == len(part)), hung
 
